@@ -403,6 +403,23 @@ def history_lookup_rule(P, C, rule):
                 dv = mir.discr_variants(term, vals)
                 if dv and dv[1] == ["None"] and any(x[0] == "call" and x[3] == ent for x in mir.subterms(dv[0])):
                     fallback = True
+        if not fallback:
+            # `get_right_at(entity, date).or_else(|| get_right_at(WILDCARD, date))`: the closure runs only when the first lookup is None
+            famb = [P.bodies[x] for x in P.family(b.id) if x in P.bodies]
+            for ob, obi, ot in [(x, bi_, t_) for x in famb for bi_, t_ in x.calls_to(r"Option.*::or_else$")]:
+                a_ = ob.call_args(obi, expand_vars=True)
+                first = mir.has_call(a_[0], r"Authorisation::get_right_at$")
+                clo = strip_refs(a_[1]) if len(a_) > 1 else ("unknown",)
+                cb_ = P.bodies.get(clo[2]) if clo[0] == "aggr" and clo[1] == "closure" else None
+                if first is None or cb_ is None:
+                    continue
+                first_is_wild = any(mir.strip_refs(x)[0] == "const" and (mir.strip_refs(x)[1] == "*" or str(mir.strip_refs(x)[3]).endswith("WILDCARD_ENTITY")) for x in first[2])
+                inner = cb_.calls_to(r"Authorisation::get_right_at$")
+                inner_wild = [bi_ for bi_, t_ in inner if any(mir.strip_refs(x)[0] == "const" and (mir.strip_refs(x)[1] == "*" or str(mir.strip_refs(x)[3]).endswith("WILDCARD_ENTITY")) for x in cb_.call_args(bi_))]
+                if not first_is_wild and len(inner) == 1 and len(inner_wild) == 1:
+                    fallback = True
+                    gr = [("x", None), ("y", None)]
+                    wild = [inner_wild[0]]
         C.ob(rule, "right-lookup:entity-then-wildcard", len(gr) == 2 and len(wild) == 1 and fallback, b.loc(), "the entity's own right entry decides; the wildcard entry is looked up only on the None edge of the entity's lookup")
     # Room::can combines membership at the date with the group's right at the date
     b = P.body("database::room::Room::can", required=False)
